@@ -706,6 +706,76 @@ fn bind_let_names_for_com(
         }
     }
 
+    #[cfg(chialisp_verif)]
+    {
+        // Scope event: what the code handed to com may refer to.
+        let names = |set: &HashSet<Vec<u8>>| -> Vec<String> {
+            let mut v: Vec<String> = set.iter().map(|n| crate::compiler::sexp::decode_string(n)).collect();
+            v.sort();
+            v
+        };
+        let mut free = HashSet::new();
+        flatten_expression_to_names_inner(&mut free, body.to_sexp());
+        let env_only: HashSet<Vec<u8>> = env
+            .iter()
+            .filter(|(n, v)| !arg_names.contains(*n) && !reflex_capture(n, (*v).clone()))
+            .map(|(n, _)| n.clone())
+            .collect();
+        let rebound: HashSet<Vec<u8>> = wanted.iter().cloned().collect();
+        // Names bound by forms inside the code itself.
+        fn binders(bf: &BodyForm, out: &mut HashSet<Vec<u8>>) {
+            match bf {
+                BodyForm::Let(_, letdata) => {
+                    for b in letdata.bindings.iter() {
+                        match &b.pattern {
+                            BindingPattern::Name(n) => {
+                                out.insert(n.clone());
+                            }
+                            BindingPattern::Complex(sexp) => {
+                                flatten_expression_to_names_inner(out, sexp.clone());
+                            }
+                        }
+                        binders(b.body.borrow(), out);
+                    }
+                    binders(letdata.body.borrow(), out);
+                }
+                BodyForm::Call(_, parts, tail) => {
+                    for p in parts.iter() {
+                        binders(p.borrow(), out);
+                    }
+                    if let Some(t) = tail {
+                        binders(t.borrow(), out);
+                    }
+                }
+                BodyForm::Lambda(ldata) => {
+                    flatten_expression_to_names_inner(out, ldata.args.clone());
+                    flatten_expression_to_names_inner(out, ldata.capture_args.clone());
+                    binders(ldata.captures.borrow(), out);
+                    binders(ldata.body.borrow(), out);
+                }
+                BodyForm::Mod(_, cf) => {
+                    flatten_expression_to_names_inner(out, cf.args.clone());
+                }
+                _ => {}
+            }
+        }
+        let mut bound_inside = HashSet::new();
+        binders(body.borrow(), &mut bound_inside);
+        let deps: Vec<(String, Vec<String>)> = wanted
+            .iter()
+            .map(|n| {
+                let mut d = HashSet::new();
+                flatten_expression_to_names_inner(&mut d, env[n].to_sexp());
+                (crate::compiler::sexp::decode_string(n), names(&d))
+            })
+            .collect();
+        crate::util::verif_event(
+            serde_json::json!({"ev": "com", "args": names(&arg_names), "env_only": names(&env_only),
+                "free": names(&free), "bound_inside": names(&bound_inside), "rebound": names(&rebound), "deps": deps})
+            .to_string(),
+        );
+    }
+
     if wanted.is_empty() {
         return body;
     }
